@@ -20,6 +20,16 @@ MISSED = {
     "C12-a": "the harness cleared the empty RRset objects of a known finding after every message: they are now carried into later messages in half of the histories and prerequisites on them must still read 'no such RRset'",
     "C18-b": "liveness was asserted only when every faulty server fails fast: servers whose TCP connect hangs are now admitted at the cost of connect_timeout (single caller)",
     "C20-a": "the zone-file printer always separated comments from fields by white space: new layout feature `GluedComment`",
+    # round 2 (letters c, d)
+    "C06-c": "C06 changed the class of members but never added a record of another class beside them: new edit `RecAddClass` (CH/HS/254/255, fresh RDATA or a copy of a member)",
+    "C06-d": "the validator was always built with default cache settings: scenarios now also configure `positive/negative_validation_ttl(lo..=hi)` with lo > 0",
+    "C07-c": "every case met a fresh validator and no fault duplicated a record: new fault `AddRecordTwice`, and half of the faults on the top-level response now meet a validator whose validation cache was warmed with the genuine responses",
+    "C07-d": "the order of records inside an RRset was never disturbed: new fault `Reverse` (order carries no meaning, the verdict must not change)",
+    "C08-d": "soundness was judged on direct `verify_nsec` calls, whose input is assumed to be authenticated: new end-to-end sub-property `sound_forged_expansion_e2e` presents the wildcard owner's genuine NSEC + RRSIG under an expanded owner name to the real `DnssecDnsHandle`",
+    "C12-c": "the oracle accepted both outcomes for an SOA add exactly 2^31 from the zone serial (RFC 1982: undefined); a replacement cannot leave the serial advanced, so only 'ignored' is accepted now",
+    "C13-d": "handlers were always built with `SqliteZoneHandler::new`: new sub-property `configured_from_files` builds them with `try_from_config` (zone file, key files, journal), half of the cases after a restart from the journal",
+    "C15-d": "the client sub-property only served direct answers with `preserve_intermediates = false`: alias answers (CNAME chain + target in one response) and both settings are generated now",
+    "C19-c": "resolutions were strictly sequential: every third query is now resolved twice concurrently on the same recursor and both results are judged",
 }
 
 
